@@ -11,7 +11,11 @@ BODY = {
     "ansi": {"B1": "insert into t1 select * from s1",
              "B2": "insert into t2 select ';' as x, c from t1",
              "B3": 'create table t3 as select "a;b", c from t2',
-             "B4": "insert into t4 select * from t2"},
+             "B4": "insert into t4 select * from t2",
+             # text that is no statement at all is a chunk of the script all the same (it is the parser's to reject, C10)
+             "G1": ", insert into t9 select 1",
+             "G2": ") select 2 from t9",
+             "G3": ":: x . y"},
     "tsql": {"B1": "insert into t1 select * from s1",
              "B2": "insert into t2 select ';' as x, c from t1",
              "B3": "select c into t3 from t2",
@@ -142,9 +146,12 @@ def run(chk):
     gn = chk.tlc("Split", cfg(chk, "gennl", 5 if quick else 6, emit=True, newline=True), "generate: newline-mode scripts", workers=1,
                  coverage=False, timeout=3000)
     nl_cases = [c for c in gn.cases("CASE") if c["expect"]]
+    gg = chk.tlc("Split", cfg(chk, "gengarbage", 5, bodies=("B1", "G1", "G2", "G3"), emit=True), "generate: scripts with chunks that are no statements",
+                 workers=1, coverage=False, timeout=3000)
+    garbage = [c for c in gg.cases("CASE") if any(x.startswith("G") for x in c["script"])]
     pool = mp.Pool(16)
     try:
-        hres = pool.map(_helpers_chunk, [(c, "ansi") for c in chunks(cases, 64)])
+        hres = pool.map(_helpers_chunk, [(c, "ansi") for c in chunks(cases + garbage, 64)])
         got = [x for part in hres for x in part]
         # full runner: every script of <= 4 lexemes, a seeded sample of the longer ones
         small = [c for c in cases if len(c["script"]) <= 4 and c["expect"]]
@@ -161,7 +168,7 @@ def run(chk):
     finally:
         pool.terminate()
     # ---- clause 1: the reported statements are exactly the bodies (comparison modulo comments/whitespace/trailing semicolons)
-    for c, g_ in zip(cases, got):
+    for c, g_ in zip(cases + garbage, got):
         exp = [norm(BODY["ansi"][b]) for b in c["expect"]]
         chk.count(["split", c["script"]], nontrivial=any(x in ("LC", "BC") for x in c["script"]) or len(c["expect"]) > 1)
         if g_ != exp:
